@@ -161,3 +161,96 @@ func ZZ_C03_skeleton_log() {
 func ZZ_C03_skeleton_linear()   { zzC03Skeleton(1, 0.01, false) }
 func ZZ_C03_skeleton_cubic()    { zzC03Skeleton(2, 0.01, false) }
 func ZZ_C03_skeleton_monotone_linear_X() { zzC03Skeleton(1, 0.01, true) }
+
+// ---------- round 2: the REAL Index / approximateInverseLog of the interpolated mappings ----------
+
+// a positive normal float64 whose exponent is free in [-1000, 1000] and whose k leading significand bits
+// are free (the remaining ones zero): exact IEEE arithmetic stays decidable for the cubic polynomial
+func zzFewBitsValue(k int) float64 {
+	e := zzvIntIn("exponent", -1000, 1000)
+	s := zzvUint64("significandBits")
+	zzvAssume(s < (1 << uint(k)))
+	return math.Float64frombits(uint64(e+1023)<<52 | s<<uint(52-k))
+}
+
+// Index is the floor of approximateLog(v)*multiplier+indexOffset, computed by the real code, for default,
+// fractional and negative offsets (decoders build such mappings), and fits int32 inside the indexable range
+func zzC03RealIndexSkeleton(kind, k int) {
+	zzvBound("real Index skeleton", "interpolated mappings built for alpha=0.01 with offsets {default, 0.5, -0.5, 35.0028, -7.25}; values: every exponent in [-1000,1000] x the k leading significand bits free (k = 12 linear, 6 cubic), exact IEEE arithmetic")
+	zzvExactFloatsOnly()
+	zzvSolverSeconds(300)
+	offs := []float64{0, 0.5, -0.5, 35.0028, -7.25}
+	oc := zzvChoose("offset", len(offs)+1)
+	v := zzFewBitsValue(k)
+	var i int
+	var t, lo, hi float64
+	if kind == 1 {
+		m0, _ := NewLinearlyInterpolatedMapping(0.01)
+		m := m0
+		if oc < len(offs) {
+			m, _ = NewLinearlyInterpolatedMappingWithGamma(m0.gamma, offs[oc])
+		}
+		i = m.Index(v)
+		t = m.approximateLog(v)*m.multiplier + m.indexOffset
+		lo, hi = m.MinIndexableValue(), m.MaxIndexableValue()
+	} else {
+		m0, _ := NewCubicallyInterpolatedMapping(0.01)
+		m := m0
+		if oc < len(offs) {
+			m, _ = NewCubicallyInterpolatedMappingWithGamma(m0.gamma, offs[oc])
+		}
+		i = m.Index(v)
+		t = m.approximateLog(v)*m.multiplier + m.indexOffset
+		lo, hi = m.MinIndexableValue(), m.MaxIndexableValue()
+	}
+	zzvCover("value")
+	zzvAssert("index-is-floor-of-scaled-approximate-log", zzvAnd(float64(i) <= t, zzvOr(t < float64(i)+1, zzvAnd(t < 0, t == float64(i)+1))))
+	zzvAssert("index-fits-int32-inside-the-indexable-range", zzvImplies(zzvAnd(lo <= v, v <= hi), zzvAnd(i >= math.MinInt32, i <= math.MaxInt32)))
+}
+func ZZ_C03_real_index_skeleton_linear() { zzC03RealIndexSkeleton(1, 12) }
+func ZZ_C03_real_index_skeleton_cubic()  { zzC03RealIndexSkeleton(2, 6) }
+
+// approximateInverseLog(x) lies in the binade of floor(x): the exponent field of the result is
+// floor(x)+1023 for EVERY x (whole and negative whole numbers included); the significand arithmetic
+// (Cardano's formula for the cubic mapping) is abstracted, the exponent does not depend on it
+func zzC03InverseBinade(kind int) {
+	zzvBound("inverse log binade", "every float64 x in [-1000, 1000]; interpolated mappings built for alpha=0.01; significand arithmetic abstracted (products/quotients of symbolic operands, Cbrt, Sqrt of the cubic inverse)")
+	zzvExactFloatsOnly()
+	zzvAbstractMulDiv()
+	zzvSolverSeconds(300)
+	x := zzvFloat64("x")
+	zzvAssume(zzvAnd(x >= -1000, x <= 1000))
+	var r float64
+	if kind == 1 {
+		m, _ := NewLinearlyInterpolatedMapping(0.01)
+		r = m.approximateInverseLog(x)
+	} else {
+		m, _ := NewCubicallyInterpolatedMapping(0.01)
+		r = m.approximateInverseLog(x)
+	}
+	zzvCover("x")
+	e := int((math.Float64bits(r)>>52)&0x7ff) - 1023
+	zzvAssert("result-lies-in-the-binade-of-floor-x", float64(e) == math.Floor(x))
+}
+func ZZ_C03_inverse_binade_linear() { zzC03InverseBinade(1) }
+func ZZ_C03_inverse_binade_cubic()  { zzC03InverseBinade(2) }
+
+// logarithmic mapping rebuilt with offsets next to the int32 limits: inside [MinIndexableValue,
+// MaxIndexableValue] the index fits int32 (math.Log uninterpreted but monotone: its value on the range
+// lies between its values at the two ends, which are the native logarithms)
+func ZZ_C03_log_index_fits_int32_with_extreme_offsets() {
+	zzvBound("logarithmic Index, extreme offsets", "gamma of alpha=0.01; offsets {2147480000, -2147480000, 1.8e9, -1.8e9}; every value of the indexable range (math.Log uninterpreted, monotone between the native logarithms of the range ends)")
+	zzvExactFloatsOnly()
+	zzvSolverSeconds(600)
+	m0, _ := NewLogarithmicMapping(0.01)
+	m, err := NewLogarithmicMappingWithGamma(m0.gamma, []float64{2147480000, -2147480000, 1.8e9, -1.8e9}[zzvChoose("offset", 4)])
+	zzvAssume(err == nil)
+	zzvAssume(m.minIndexableValue < m.maxIndexableValue)
+	l := zzvFloat64("logOfValue")
+	zzvAssume(zzvAnd(l >= math.Log(m.minIndexableValue), l <= math.Log(m.maxIndexableValue)))
+	v := zzvExpOf(l)
+	zzvAssume(zzvAnd(v >= m.minIndexableValue, v <= m.maxIndexableValue))
+	zzvCover("value")
+	i := m.Index(v)
+	zzvAssert("index-fits-int32", zzvAnd(i >= math.MinInt32, i <= math.MaxInt32))
+}
